@@ -60,6 +60,19 @@ Definition cs_execute_context (cancellable : bool) (done : option Z) : cstate :=
 Definition cs_execute (stale_ops : Z) : cstate :=
   {| checkCtx := false; ctxOps := stale_ops; clock := 0; done_at := None; ops_at_cancel := -1 |}.
 
+(* One call on a (possibly reused) Interpreter.  Execute only clears checkCtx (p.ctxOps keeps
+   whatever the previous call left); ExecuteContext installs checkCtx, ctx, ctxDone and ctxOps = 0
+   anew, whatever the context is: nothing of the counter state of an earlier call survives. *)
+Inductive call : Type :=
+| CallExecute
+| CallExecuteContext (cancellable : bool) (done : option Z).
+
+Definition call_cs (prev : cstate) (c : call) : cstate :=
+  match c with
+  | CallExecute => cs_execute (ctxOps prev)
+  | CallExecuteContext b d => cs_execute_context b d
+  end.
+
 Section Cancel.
   Variables value St err : Type.
   Variable P : prims value St err.
@@ -322,6 +335,16 @@ Section Cancel.
         | [], [] => (RStatus (io_exit_status IO (ms m1)), Some (close m1), cs1)
         | _, _ => finish_end [] m1 cs1
         end
+    end.
+
+  (* a history of calls on one Interpreter: [reset] is resetCore + setExecuteConfig between calls *)
+  Fixpoint run_calls (fuel : nat) (cp : cprogram) (reset : St -> St) (s : St) (prev : cstate) (cs : list call)
+    : list (xres * option St) :=
+    match cs with
+    | [] => []
+    | c :: t =>
+        let '(r, fin, cs') := execute_all fuel cp {| ms := reset s; frame := []; depth := 0 |} (call_cs prev c) in
+        (r, fin) :: match fin with Some s' => run_calls fuel cp reset s' cs' t | None => [] end
     end.
 
 End Cancel.
